@@ -33,6 +33,20 @@ CHECKS.update({
                 note=_STORE_NOTE + " Corruption = flipping the first byte of every stored copy of a key; AC (proto) read buffer factory not exercised, only the CAS factory."),
 })
 
+_P_TECH = "TLA+ design specs %s model-checked with TLC (safety%s; design mutants killed); seeded workloads on the assembled real persistent store (PersistentBlockList + PeriodicSyncer + DirectoryBackedPersistentStateStore + block-device allocator and record array over simulated media, virtual clock, cooperative scheduler): %s; every recorded trace validated by TLC against the StoreContractTrace.tla monitor (clause %s), which alone decides VIOLATION"
+_P_NOTE = "Trusted: TLC; the simulated media's crash semantics (any subset of sector writes since the last completed Sync lost; index device never synced; ordered metadata journal for the state directory; un-fsynced file data kept or lost); deterministic epoch seeds. The design models abstract the state-file protocol to an atomic write and do not model sectors; both are exercised on the real code only. Real-code schedules are seeded random cooperative schedules, not exhaustive."
+CHECKS.update({
+    "C02": dict(level="model_checking", technique=_P_TECH % ("CrashEpochs.tla (epochs, seeded record checksums, sync/expose/state-write/release ordering, region reuse, crash with any subset of unsynced data and index writes, recovery)", "", "a machine crash at every device / directory call of each workload with several admissible post-crash media each, restart, read-back of every key, further uploads, read-back again", "C02"),
+                design_ref="DESIGN.md 4/C02, 10", note=_P_NOTE,
+                text="TLC proves on the bounded design that after any crash every index record that validates against the restored state points into the block incarnation its upload was written to, that this block is listed, its region not reused, and the data durable. The real code is bound by crash enumeration: for every I/O operation n of seeded workloads the n-th call and everything after it is dropped, post-crash images are built from the journals under 6 (quick) / 16 (thorough) loss masks, the store is restarted from them and must never return or report present anything but exactly the uploaded bytes, before and after new uploads."),
+    "C03": dict(level="model_checking", technique=_P_TECH % ("CrashEpochs.tla (CommitDurable) and Syncer.tla (closedForWriting / final syncs)", "", "graceful shutdown requested at every scheduler step (in-flight uploads and the two final syncs run to completion) and a process crash at every scheduler step, restart from the media as the process left them, read-back of every key", "C03"),
+                design_ref="DESIGN.md 4/C03, 10", note=_P_NOTE + " Eviction excuse: old+1 block hand-outs since the upload started.",
+                text="Design: uploads acknowledged before the start of a completed commit are visible after a process crash when nothing was finalized since. Real code: every upload acknowledged before a graceful shutdown completes must read back after restart (unless old+1 blocks were handed out since it started); after a process crash every upload acknowledged before the NotifySyncStarting of a commit that reached NotifyPersistentStateWritten must read back, provided no upload or refresh was logged since that NotifySyncStarting."),
+    "C07": dict(level="model_checking", technique=_P_TECH % ("Syncer.tla (both loops of PeriodicSyncer line by line, notification channels, timers as saturating distances, failures, shutdown)", " and liveness under weak fairness", "crash-free runs with injected sync / state-write failures, timers fired by the scheduler, driven to quiescence first without and then with timer expiries", "C07"),
+                design_ref="DESIGN.md 4/C07, 10", note=_P_NOTE + " The minimum epoch interval is measured between the timer expiries that trigger epoch syncs (virtual time).",
+                text="TLC checks for all interleavings of finalizers, PushBack/PopFront, both loops, failures, ticks and shutdown: no double close, no lost wake-up (pending work implies the installed channel is closed; no loop waits on a stale open channel), the minimum interval between epoch syncs, and, under weak fairness, that eventually every epoch is covered by a written state file and nothing awaits release. On real executions the monitor requires: no panic, consecutive NotifySyncStarting(false) at least the interval apart in virtual time unless shutting down, popped blocks returned to the allocator without any timer expiring (unless a retry is pending), and at quiescence every acknowledged upload covered by a completed commit."),
+})
+
 REASON_WIP = "check not built yet in this round (work in progress; see DESIGN.md section 10 for status)"
 
 
